@@ -466,6 +466,13 @@ def c06(**p):
     return body
 
 
+AFTER_END = [["> <NAME>", "x", "", "$$$$"],
+             ["M  ISO  1   1  13", "M  END"],
+             ["M  RAD  1   1   2", "M  CHG  1   1   1"],
+             ["> <ID>", "1", "", "$$$$", "next", "  PROG", "", "  1  0  0  0  0  0  0  0  0  0999 V2000",
+              "    0.0000    0.0000    0.0000 C   0  0  0  0  0  0  0  0  0  0  0  0", "M  ISO  1   1  13", "M  RAD  1   1   2", "M  END", "$$$$"]]
+
+
 def c06_v2000(**p):
     """V2000 pair: coordinates, bond types and stereo fields, charges (M  CHG), header lines."""
     from harness.pipeline import dom
@@ -488,7 +495,12 @@ def c06_v2000(**p):
             chg = [(a + 1, c.int(f"chg{a}", -15, 15)) for a in range(n)] if alt and not p.get("codes") else []
             pl += fixed_lines("CHG", chg) if chg else []
             pl += fixed_lines("RAD", rad) + fixed_lines("ISO", iso)
-            return v2000_text(al, bl, pl, header=("name", "  PROG", "comment") if alt else ("", "", ""), eol="\r\n" if alt and p.get("crlf") else "\n")
+            text = v2000_text(al, bl, pl, header=("name", "  PROG", "comment") if alt else ("", "", ""), eol="\r\n" if alt and p.get("crlf") else "\n")
+            if alt and p.get("after_end"):
+                # content after "M  END" (an SD file's data items and a following record) is not part of this molecule
+                k = c.choice("after_end", len(AFTER_END))
+                text += "\n".join(AFTER_END[k]) + "\n"
+            return text
         t1, t2 = render(False), render(True)
         c.note("mol", mol.describe())
         c.note("rendering1", t1)
